@@ -9,6 +9,9 @@
 CONSTANTS
   MaxSend = 1
   EofWithData = TRUE
+  ShapesA <- LocalShapes
+  ShapesB <- AllShapes
+  DevCloseWriterFallback = FALSE
   Emit = FALSE
   Classes = @@CLASSES@@
   BatchSize = @@BATCHSIZE@@
@@ -24,6 +27,9 @@ CONSTANTS
   DevSpin = @@DEVSPIN@@
   DevNoUnblock = @@DEVNOUNBLOCK@@
   DevAliasFlush = @@ALIAS@@
+  SockQueue = @@SOCKQ@@
+  DevQueueRefs = @@QREFS@@
+  DevDropOnClose = @@DROP@@
 SPECIFICATION USpec
 INVARIANTS UTypeOK UDatagrams UComplete UCompleteAny UEncoded UFlushed UMutex UBuf
 PROPERTIES UDelivMonotone UEventuallyFlushed @@LIVE@@
